@@ -989,8 +989,8 @@ class CSSMatch(_DocumentNav):
                 # Abort if our nth index is out of bounds and only getting further out of bounds as we increment.
                 # Otherwise, increment to try to get in bounds.
                 adjust = None
-                while idx < 1 or idx > last_index:
-                    if idx < 0:
+                while idx < 1 or idx > last_index + 1:
+                    if idx < 1:
                         diff_low = 0 - idx
                         if adjust is not None and adjust == 1:
                             break
@@ -1001,13 +1001,13 @@ class CSSMatch(_DocumentNav):
                         if diff >= diff_low:
                             break
                     else:
-                        diff_high = idx - last_index
+                        diff_high = idx - (last_index + 1)
                         if adjust is not None and adjust == -1:
                             break
                         adjust = 1
                         count += count_incr
                         idx = last_idx = a * count + b if var else a
-                        diff = idx - last_index
+                        diff = idx - (last_index + 1)
                         if diff >= diff_high:
                             break
                         diff_high = diff
